@@ -916,7 +916,7 @@ def cte_roundtrip_rows(ctx):
         _CTX.update(tree=ctx.src.tree(PJ), src=ctx.src, ctx=ctx)
     out = []
     for declared, referenced in (('sales', 'sales'), ('Sales', 'Sales'), ('SALES', 'SALES'), ('mySales', 'mySales'), ('Sales', 'sales'), ('sales', 'SALES')):
-        self_ = Obj('QueryPlanner', default_namespace='mindsdb', cte_results={})
+        self_ = Obj('QueryPlanner', default_namespace='mindsdb', cte_results={}, plan=Obj('QueryPlan', steps=[]))
         stubs = base_stubs()
         stubs['self.plan_select'] = lambda it, q, *a, **k: Obj('Step', result='R-cte')
 
